@@ -15,10 +15,23 @@ import (
 )
 
 // C06: the four converters and the streaming reader called concurrently from many goroutines give the same results
-// as calling them one after another.  A `conc.run seed goroutines rounds race` record builds a fixed input set from the
-// seed, computes the sequential results, then lets `goroutines` goroutines each run `rounds` passes over the inputs
-// (in different orders) and compares every result.  race=1: the same in a child process built with `go build -race`
-// (`bin/harness-race`, built by the thorough tier); a data race makes that child exit with status 66.
+// as calling them one after another.  A `conc.run seed goroutines rounds race` record builds its inputs from the seed,
+// computes the sequential results, then lets `goroutines` goroutines each run `rounds` rounds and compares every result.
+// race=1: the same in a child process built with `go build -race` (`bin/harness-race`); a data race makes that child
+// exit with status 66.
+//
+// Inputs: a shared set (every goroutine converts the same objects, in different orders) and, per goroutine, its OWN set
+// (different in every goroutine).  Shapes, beyond single-line fields of every message kind:
+//   * multi-line payloads: texts / names / topology JSON and SVG with line feeds in messages; JSON lines (`{…}` state,
+//     `[…]` message array) spread over several text lines as decoder and reader input;
+//   * per goroutine: PanelInfo.RawPanelSupport with a capability set that no other goroutine has (13 flags, mask from the
+//     goroutine number), the `_support=` line of that set, texts / images / event lists of goroutine-specific length;
+//   * graphics transfers in different phases at the same moment: every goroutine brings one transfer to its last-but-one
+//     line, all meet at a barrier, then half of them feed the completing line while the other half feed chunk 0 of a new
+//     transfer (streaming reader, plain and through the JSON hop; the batch decoder on whole transfers in between);
+//   * results HELD across calls: every returned slice / message is compared when it comes back, again at the end of the
+//     round (after this goroutine's later calls, while the others still convert) and - the last round's - once more
+//     after all goroutines have finished.  The sequential reference pass holds its results the same way.
 
 type concExec struct{}
 
@@ -28,44 +41,64 @@ func init() {
 }
 
 type concInputs struct {
-	in    [][]*rwp.InboundMessage
-	out   [][]*rwp.OutboundMessage
-	linI  [][]string
-	linO  [][]string
-	strm  [][]string
+	in   [][]*rwp.InboundMessage
+	out  [][]*rwp.OutboundMessage
+	linI [][]string
+	linO [][]string
+	strm [][]string
+}
+
+var concTexts = []string{"Title", "a|b", "x\ny", "ISO ", "", "Grüße", "12", "first line\nsecond line\nthird", "\n", "tab\there\r\nCRLF", "{\"a\":\n1}"}
+
+// multi-line JSON input lines (one "line" of the protocol that itself contains line feeds)
+var concJSONLines = []string{
+	"{\n  \"HWCIDs\": [3, 4],\n  \"HWCText\": {\n    \"Title\": \"multi\\nline\",\n    \"IntegerValue\": 7\n  }\n}",
+	"[\n {\"States\": [{\"HWCIDs\": [9], \"HWCMode\": {\"State\": 4}}]},\n null,\n {\"FlowMessage\": 1}\n]",
+	"{\"HWCIDs\":[1],\n\"HWCGfx\":{\"W\":8,\"H\":8,\n\"ImageData\":\"AQID\"}}",
+	"[\n]", "{\n", "[{\"Command\":{\"PanelBrightness\":{\"OLEDs\":3,\n\"LEDs\":5}}}]\n",
 }
 
 func concBuild(seed uint64) *concInputs {
 	r := NewRng(seed)
 	ci := &concInputs{}
-	texts := []string{"Title", "a|b", "x\ny", "ISO ", "", "Grüße", "12"}
+	texts := concTexts
 	for i := 0; i < 24; i++ {
 		ms := []*rwp.InboundMessage{}
 		for j := 0; j < 1+r.Intn(4); j++ {
 			st := &rwp.HWCState{HWCIDs: []uint32{uint32(1 + r.Intn(40)), uint32(50 + r.Intn(40))}}
-			switch r.Intn(5) {
+			switch r.Intn(6) {
 			case 0:
 				st.HWCMode = &rwp.HWCMode{State: rwp.HWCMode_StateE(r.Intn(6)), Output: r.Bool(), BlinkPattern: uint32(r.Intn(16))}
 			case 1:
 				st.HWCColor = &rwp.HWCColor{ColorRGB: &rwp.ColorRGB{Red: uint32(r.Intn(256)), Green: uint32(r.Intn(256)), Blue: uint32(r.Intn(256))}}
 			case 2:
-				st.HWCText = &rwp.HWCText{Title: texts[r.Intn(len(texts))], Textline1: texts[r.Intn(len(texts))], IntegerValue: int32(r.Intn(2000)), Formatting: rwp.HWCText_FormattingE(r.Intn(13))}
+				st.HWCText = &rwp.HWCText{Title: texts[r.Intn(len(texts))], Textline1: texts[r.Intn(len(texts))], Textline2: texts[r.Intn(len(texts))], IntegerValue: int32(r.Intn(2000)), Formatting: rwp.HWCText_FormattingE(r.Intn(13))}
 			case 3:
 				st.HWCGfx = &rwp.HWCGfx{W: 64, H: 32, ImageData: r.Bytes(1 + r.Intn(600)), ImageType: rwp.HWCGfx_ImageTypeE(r.Intn(3))}
 			case 4:
 				st.HWCExtended = &rwp.HWCExtended{Interpretation: rwp.HWCExtended_InterpretationE(r.Intn(8)), Value: uint32(r.Intn(4096))}
+			case 5: // JSON-only state: the whole state is emitted as one JSON line, texts with line feeds inside
+				st.Processors = &rwp.Processors{UniText: &rwp.ProcUniText{W: 64, H: 32, Title: texts[r.Intn(len(texts))], Textline1: texts[r.Intn(len(texts))]}}
+				st.HWCText = &rwp.HWCText{Title: texts[r.Intn(len(texts))]}
 			}
-			ms = append(ms, &rwp.InboundMessage{States: []*rwp.HWCState{st}, FlowMessage: rwp.InboundMessage_FlowMsg(r.Intn(4))})
+			m := &rwp.InboundMessage{States: []*rwp.HWCState{st}, FlowMessage: rwp.InboundMessage_FlowMsg(r.Intn(4))}
+			if r.Intn(3) == 0 { // several states of different kinds (two images of different formats among them) in ONE message
+				m.States = append(m.States,
+					&rwp.HWCState{HWCIDs: []uint32{uint32(1 + r.Intn(9))}, HWCGfx: &rwp.HWCGfx{W: 8, H: 8, ImageData: r.Bytes(1 + r.Intn(400)), ImageType: rwp.HWCGfx_ImageTypeE(r.Intn(3))}},
+					&rwp.HWCState{HWCIDs: []uint32{uint32(1 + r.Intn(9))}, HWCText: &rwp.HWCText{Title: texts[r.Intn(len(texts))]}},
+					&rwp.HWCState{HWCIDs: []uint32{uint32(1 + r.Intn(9))}, HWCGfx: &rwp.HWCGfx{W: 16, H: 8, ImageData: r.Bytes(1 + r.Intn(400)), ImageType: rwp.HWCGfx_ImageTypeE(r.Intn(3))}})
+			}
+			ms = append(ms, m)
 		}
 		ci.in = append(ci.in, ms)
 		os_ := []*rwp.OutboundMessage{}
 		for j := 0; j < 1+r.Intn(4); j++ {
 			m := &rwp.OutboundMessage{}
-			switch r.Intn(5) {
+			switch r.Intn(6) {
 			case 0:
 				m.Events = []*rwp.HWCEvent{{HWCID: uint32(r.Intn(99)), Binary: &rwp.BinaryEvent{Pressed: r.Bool(), Edge: rwp.BinaryEvent_EdgeID(r.Pick(0, 1, 2, 4, 8, 16))}}}
 			case 1:
-				m.PanelInfo = &rwp.PanelInfo{Model: texts[r.Intn(len(texts))], Serial: "S1", RawPanelSupport: &rwp.RawPanelSupport{ASCII: true, Binary: r.Bool()}}
+				m.PanelInfo = &rwp.PanelInfo{Model: texts[r.Intn(len(texts))], Serial: "S1", Name: texts[r.Intn(len(texts))], RawPanelSupport: concSupport(r.Intn(concMasks))}
 			case 2:
 				m.HWCavailability = map[uint32]uint32{uint32(r.Intn(50)): uint32(r.Intn(3)), 77: 1}
 			case 3:
@@ -76,6 +109,9 @@ func concBuild(seed uint64) *concInputs {
 					m.PanelTopology.Json = "{\"HWc\":[" + strings.Repeat("{\"id\":1,\"x\":10,\"y\":20,\"txt\":\"Button\"},\n", 20+r.Intn(200)) + "{}]}"
 					m.PanelTopology.Svgbase = "<svg>" + strings.Repeat("<rect x=\"1\" y=\"2\"/>", 30+r.Intn(300)) + "</svg>"
 				}
+			case 5:
+				m.ErrorMessage = &rwp.Message{Message: texts[r.Intn(len(texts))]}
+				m.Message = &rwp.Message{Message: texts[r.Intn(len(texts))]}
 			}
 			os_ = append(os_, m)
 		}
@@ -83,12 +119,63 @@ func concBuild(seed uint64) *concInputs {
 		ci.linI = append(ci.linI, helpers.InboundMessagesToRawPanelASCIIstrings(ms))
 		ci.linO = append(ci.linO, helpers.OutboundMessagesToRawPanelASCIIstrings(os_))
 	}
-	ci.linI = append(ci.linI, []string{"garbage", "HWC#1=", "[null]", "{", "HWCt#3=|||x", "HWCg#1=0/0,8x8:AQ=="}, []string{"", "ping", "Flag#=1", "HWCc#1,2=255"})
-	ci.linO = append(ci.linO, []string{"garbage", "HWC#5=Raw:9", "SysStat=CPUTemp:x", "map=1:2", "_support=ASCII,Foo"})
+	ci.linI = append(ci.linI, []string{"garbage", "HWC#1=", "[null]", "{", "HWCt#3=|||x", "HWCg#1=0/0,8x8:AQ=="}, []string{"", "ping", "Flag#=1", "HWCc#1,2=255"},
+		concJSONLines, []string{concJSONLines[0], "HWCg#5=0/1,8x8:AQ==", concJSONLines[1], "HWCg#5=1:Ag==", "HWCg#5=2:Aw=="})
+	ci.linO = append(ci.linO, []string{"garbage", "HWC#5=Raw:9", "SysStat=CPUTemp:x", "map=1:2", "_support=ASCII,Foo"},
+		[]string{"_panelTopology_HWC={\n\"HWc\":\n[]}", "_name=two\nlines", "Msg=a\nb", "_support=ASCII,\nBinary", "_support=" + strings.Join(concSupportNames, ",")})
 	for _, l := range ci.linI {
 		ci.strm = append(ci.strm, l)
 	}
 	return ci
+}
+
+// the capability names of a `_support=` line, in the order of the thirteen flags of RawPanelSupport (bit i of a mask)
+var concSupportNames = []string{"ASCII", "Binary", "JSONFeedback", "JSONonInbound", "JSONonOutbound", "Processors", "System", "RawADCValues", "BurninProfile", "EnvHealth",
+	"Registers", "Calibration", "NetworkSettings"}
+
+const concMasks = 1 << 13
+
+func concSupport(mask int) *rwp.RawPanelSupport {
+	b := func(i int) bool { return mask>>uint(i)&1 == 1 }
+	return &rwp.RawPanelSupport{ASCII: b(0), Binary: b(1), ASCII_JSONfeedback: b(2), ASCII_Inbound: b(3), ASCII_Outbound: b(4),
+		Processors: b(5), System: b(6), RawADCValues: b(7), BurninProfile: b(8), EnvHealth: b(9), Registers: b(10), Calibration: b(11), NetworkSettings: b(12)}
+}
+
+// ---- results, held
+
+const (
+	kLines  = iota // []string of an encoder
+	kSorted        // … compared as a multiset (the availability map makes line order map-dependent)
+	kIn            // []*rwp.InboundMessage
+	kOut           // []*rwp.OutboundMessage
+	kStrm          // per line of a reader session: []*rwp.InboundMessage
+)
+
+type concHeld struct {
+	key   string
+	kind  int
+	lines []string
+	inMs  []*rwp.InboundMessage
+	outMs []*rwp.OutboundMessage
+	strm  [][]*rwp.InboundMessage
+}
+
+func (h *concHeld) canon() string {
+	switch h.kind {
+	case kLines:
+		return h.key + ":" + strings.Join(h.lines, "\n")
+	case kSorted:
+		return h.key + ":" + sortedJoin(h.lines)
+	case kIn:
+		return h.key + ":" + canonIn(h.inMs)
+	case kOut:
+		return h.key + ":" + canonOut(h.outMs)
+	}
+	var sb strings.Builder
+	for _, ms := range h.strm {
+		sb.WriteString(canonIn(ms) + "|")
+	}
+	return h.key + ":" + sb.String()
 }
 
 func canonIn(ms []*rwp.InboundMessage) string {
@@ -125,74 +212,252 @@ func sortedJoin(ls []string) string { // the availability map makes line order m
 	return strings.Join(c, "\n")
 }
 
-func (ci *concInputs) evalAll(order int) []string {
-	res := make([]string, 0, 5*len(ci.in)+8)
-	n := len(ci.in)
-	for k := 0; k < n; k++ {
-		i := (k*7 + order) % n
-		res = append(res, fmt.Sprintf("ein%d:%s", i, strings.Join(helpers.InboundMessagesToRawPanelASCIIstrings(ci.in[i]), "\n")))
-		res = append(res, fmt.Sprintf("eout%d:%s", i, sortedJoin(helpers.OutboundMessagesToRawPanelASCIIstrings(ci.out[i]))))
-	}
-	for k := 0; k < len(ci.linI); k++ {
-		i := (k*5 + order) % len(ci.linI)
-		res = append(res, fmt.Sprintf("din%d:%s", i, canonIn(helpers.RawPanelASCIIstringsToInboundMessages(ci.linI[i]))))
-	}
-	for k := 0; k < len(ci.linO); k++ {
-		i := (k*3 + order) % len(ci.linO)
-		res = append(res, fmt.Sprintf("dout%d:%s", i, canonOut(helpers.RawPanelASCIIstringsToOutboundMessages(ci.linO[i]))))
-	}
-	for k := 0; k < len(ci.strm); k++ {
-		i := (k*11 + order) % len(ci.strm)
-		var rd helpers.ASCIIreader
-		var sb strings.Builder
-		for _, l := range ci.strm[i] {
-			sb.WriteString(canonIn(rd.Parse(l)) + "|")
-			st, _ := json.Marshal(rd) // state through JSON, as the C binding does
+// one reader session over the lines, the reader state through JSON between lines when hop is set (as the C binding does)
+func concSession(lines []string, hop bool) [][]*rwp.InboundMessage {
+	var rd helpers.ASCIIreader
+	res := make([][]*rwp.InboundMessage, 0, len(lines))
+	for _, l := range lines {
+		res = append(res, rd.Parse(l))
+		if hop {
+			st, _ := json.Marshal(rd)
 			var rd2 helpers.ASCIIreader
 			json.Unmarshal(st, &rd2)
 			rd = rd2
 		}
-		res = append(res, fmt.Sprintf("strm%d:%s", i, sb.String()))
 	}
 	return res
 }
 
-func concRun(seed uint64, goroutines, rounds int) string {
+// evalAll: one pass over the shared inputs; every result is handed to `got` as it comes back (still referring to
+// whatever the library returned: nothing is copied)
+func (ci *concInputs) evalAll(order int, got func(*concHeld)) {
+	n := len(ci.in)
+	for k := 0; k < n; k++ {
+		i := (k*7 + order) % n
+		got(&concHeld{key: fmt.Sprintf("ein%d", i), kind: kLines, lines: helpers.InboundMessagesToRawPanelASCIIstrings(ci.in[i])})
+		got(&concHeld{key: fmt.Sprintf("eout%d", i), kind: kSorted, lines: helpers.OutboundMessagesToRawPanelASCIIstrings(ci.out[i])})
+	}
+	for k := 0; k < len(ci.linI); k++ {
+		i := (k*5 + order) % len(ci.linI)
+		got(&concHeld{key: fmt.Sprintf("din%d", i), kind: kIn, inMs: helpers.RawPanelASCIIstringsToInboundMessages(ci.linI[i])})
+	}
+	for k := 0; k < len(ci.linO); k++ {
+		i := (k*3 + order) % len(ci.linO)
+		got(&concHeld{key: fmt.Sprintf("dout%d", i), kind: kOut, outMs: helpers.RawPanelASCIIstringsToOutboundMessages(ci.linO[i])})
+	}
+	for k := 0; k < len(ci.strm); k++ {
+		i := (k*11 + order) % len(ci.strm)
+		got(&concHeld{key: fmt.Sprintf("strm%d", i), kind: kStrm, strm: concSession(ci.strm[i], true)})
+	}
+}
+
+// ---- per goroutine: inputs no other goroutine has
+
+type concOwn struct {
+	out  []*rwp.OutboundMessage
+	linO []string
+	in   []*rwp.InboundMessage
+	linI []string
+	t1   []string // the lines of one graphics transfer of this goroutine …
+	t2   []string // … and of a second one (other format, other target)
+	want map[string]string
+}
+
+func concOwnBuild(seed uint64, g int) *concOwn {
+	r := NewRng(seed*1000003 + uint64(g)*7919 + 17)
+	mask := (g*2731 + int(seed%concMasks)*77) % concMasks // 2731 is odd: different for every goroutine number below 8192
+	o := &concOwn{want: map[string]string{}}
+	names := []string{}
+	for i, nm := range concSupportNames {
+		if mask>>uint(i)&1 == 1 {
+			names = append(names, nm)
+		}
+	}
+	o.out = []*rwp.OutboundMessage{
+		{PanelInfo: &rwp.PanelInfo{Model: fmt.Sprintf("MODEL-%d", g), Serial: fmt.Sprintf("SN%04d", g*g), Name: fmt.Sprintf("panel %d\nof many", g), RawPanelSupport: concSupport(mask)}},
+		{PanelInfo: &rwp.PanelInfo{RawPanelSupport: concSupport(concMasks - 1 - mask)}},
+		{PanelTopology: &rwp.PanelTopology{Json: "{\"HWc\":[" + strings.Repeat(fmt.Sprintf("{\"id\":%d},\n", g), 1+g) + "{}]}"}},
+	}
+	for i := 0; i <= g%7; i++ {
+		o.out = append(o.out, &rwp.OutboundMessage{Events: []*rwp.HWCEvent{{HWCID: uint32(g*10 + i), Binary: &rwp.BinaryEvent{Pressed: i%2 == 0}}}})
+	}
+	o.linO = []string{"_support=" + strings.Join(names, ","), fmt.Sprintf("_model=MODEL-%d", g), "_support=" + strings.Join(concSupportNames[g%13:], ","), fmt.Sprintf("HWC#%d=Down", g+1)}
+	ty1, ty2 := rwp.HWCGfx_ImageTypeE(g%3), rwp.HWCGfx_ImageTypeE((g+1+g/3)%3)
+	img1 := &rwp.HWCGfx{W: 64, H: 32, ImageType: ty1, ImageData: r.Bytes(171 + 37*g + r.Intn(200))}
+	img2 := &rwp.HWCGfx{W: 48, H: 24, XYoffset: true, X: uint32(g), Y: 3, ImageType: ty2, ImageData: r.Bytes(1 + r.Intn(700))}
+	o.in = []*rwp.InboundMessage{
+		{States: []*rwp.HWCState{
+			{HWCIDs: []uint32{uint32(100 + g)}, HWCGfx: img1},
+			{HWCIDs: []uint32{uint32(100 + g), 7}, HWCText: &rwp.HWCText{Title: fmt.Sprintf("g%d\nline two", g), Textline1: strings.Repeat("x", g), IntegerValue: int32(g)}},
+			{HWCIDs: []uint32{uint32(200 + g)}, HWCGfx: img2},
+		}},
+		{States: []*rwp.HWCState{{HWCIDs: []uint32{uint32(g + 1)}, HWCMode: &rwp.HWCMode{State: rwp.HWCMode_StateE(g % 6)}}}},
+	}
+	o.t1 = helpers.InboundMessagesToRawPanelASCIIstrings([]*rwp.InboundMessage{{States: []*rwp.HWCState{{HWCIDs: []uint32{uint32(100 + g)}, HWCGfx: img1}}}})
+	o.t2 = helpers.InboundMessagesToRawPanelASCIIstrings([]*rwp.InboundMessage{{States: []*rwp.HWCState{{HWCIDs: []uint32{uint32(200 + g)}, HWCGfx: img2}}}})
+	o.linI = append(append([]string{fmt.Sprintf("HWCt#%d=%d|1|T%d", g+1, g, g), concJSONLines[g%len(concJSONLines)]}, o.t2...), fmt.Sprintf("HWC#%d=%d", g+1, g%6))
+	o.evalOwn(g, func(h *concHeld) { o.want[h.key] = h.canon() })
+	for _, hop := range []bool{false, true} {
+		a := &concHeld{key: fmt.Sprintf("own%d.t1.%v", g, hop), kind: kStrm, strm: concSession(o.t1, hop)}
+		b := &concHeld{key: fmt.Sprintf("own%d.t2.%v", g, hop), kind: kStrm, strm: concSession(o.t2, hop)}
+		o.want[a.key], o.want[b.key] = a.canon(), b.canon()
+	}
+	return o
+}
+
+func (o *concOwn) evalOwn(g int, got func(*concHeld)) {
+	got(&concHeld{key: fmt.Sprintf("own%d.eout", g), kind: kLines, lines: helpers.OutboundMessagesToRawPanelASCIIstrings(o.out)})
+	got(&concHeld{key: fmt.Sprintf("own%d.dout", g), kind: kOut, outMs: helpers.RawPanelASCIIstringsToOutboundMessages(o.linO)})
+	got(&concHeld{key: fmt.Sprintf("own%d.ein", g), kind: kLines, lines: helpers.InboundMessagesToRawPanelASCIIstrings(o.in)})
+	got(&concHeld{key: fmt.Sprintf("own%d.din", g), kind: kIn, inMs: helpers.RawPanelASCIIstringsToInboundMessages(o.linI)})
+}
+
+// gfxPhases: both transfers of the goroutine through two readers; the first is brought to its last-but-one line, then all
+// goroutines meet, then the even ones feed the completing line first and chunk 0 of the second transfer next, the odd
+// ones the other way round - a transfer completes in one goroutine while another goroutine starts one
+func (o *concOwn) gfxPhases(g int, hop bool, meet func(), got func(*concHeld)) {
+	var rdA, rdB helpers.ASCIIreader
+	feed := func(rd *helpers.ASCIIreader, l string) []*rwp.InboundMessage {
+		ms := rd.Parse(l)
+		if hop {
+			st, _ := json.Marshal(*rd)
+			var rd2 helpers.ASCIIreader
+			json.Unmarshal(st, &rd2)
+			*rd = rd2
+		}
+		return ms
+	}
+	a := &concHeld{key: fmt.Sprintf("own%d.t1.%v", g, hop), kind: kStrm}
+	b := &concHeld{key: fmt.Sprintf("own%d.t2.%v", g, hop), kind: kStrm}
+	n := len(o.t1)
+	for _, l := range o.t1[:n-1] {
+		a.strm = append(a.strm, feed(&rdA, l))
+	}
+	meet()
+	if g%2 == 0 {
+		a.strm = append(a.strm, feed(&rdA, o.t1[n-1]))
+		b.strm = append(b.strm, feed(&rdB, o.t2[0]))
+	} else {
+		b.strm = append(b.strm, feed(&rdB, o.t2[0]))
+		a.strm = append(a.strm, feed(&rdA, o.t1[n-1]))
+	}
+	for _, l := range o.t2[1:] {
+		b.strm = append(b.strm, feed(&rdB, l))
+	}
+	got(a)
+	got(b)
+}
+
+func concRun(seed uint64, goroutines, rounds int) (res string) {
+	if p := guarded(func() { res = concRun1(seed, goroutines, rounds) }); p != "" { // a panic in the sequential reference pass
+		return p
+	}
+	return res
+}
+
+func concRun1(seed uint64, goroutines, rounds int) string {
+	gfxSilenceLibraryLog() // stray chunk lines among the inputs make the library log a warning per call
 	ci := concBuild(seed)
+	// sequential reference: every result is consumed as it comes back … and held: after the whole pass it must still be the same
 	want := map[string]string{}
-	for _, r := range ci.evalAll(0) {
-		k := r[:strings.Index(r, ":")]
-		want[k] = r
+	seqHeld := []*concHeld{}
+	ci.evalAll(0, func(h *concHeld) { want[h.key] = h.canon(); seqHeld = append(seqHeld, h) })
+	owns := make([]*concOwn, goroutines)
+	for g := range owns {
+		owns[g] = concOwnBuild(seed, g)
+		owns[g].evalOwn(g, func(h *concHeld) { seqHeld = append(seqHeld, h) })
+	}
+	wantOf := func(g int, key string) (string, bool) {
+		if w, ok := want[key]; ok {
+			return w, true
+		}
+		w, ok := owns[g].want[key]
+		return w, ok
+	}
+	for _, h := range seqHeld {
+		g := 0
+		fmt.Sscanf(h.key, "own%d.", &g)
+		if w, ok := wantOf(g, h.key); !ok || w != h.canon() {
+			return "mismatch:sequential-result-changed-by-a-later-call:" + h.key
+		}
+	}
+	// meeting points: one per round and reader mode; a goroutine that leaves early (panic) checks in for the rest
+	meets := make([]*sync.WaitGroup, rounds*2)
+	for i := range meets {
+		meets[i] = &sync.WaitGroup{}
+		meets[i].Add(goroutines)
 	}
 	var wg sync.WaitGroup
 	var mu sync.Mutex
 	bad := ""
+	fail := func(s string) {
+		mu.Lock()
+		if bad == "" {
+			bad = s
+		}
+		mu.Unlock()
+	}
+	lastHeld := make([][]*concHeld, goroutines)
 	for g := 0; g < goroutines; g++ {
 		wg.Add(1)
 		go func(g int) {
 			defer wg.Done()
+			met := 0
 			defer func() {
+				for ; met < len(meets); met++ {
+					meets[met].Done()
+				}
 				if r := recover(); r != nil {
-					mu.Lock()
-					bad = "panic:" + strings.ReplaceAll(fmt.Sprint(r), " ", "_")
-					mu.Unlock()
+					fail("panic:" + strings.ReplaceAll(fmt.Sprint(r), " ", "_"))
 				}
 			}()
+			meet := func() { m := meets[met]; met++; m.Done(); m.Wait() }
 			for round := 0; round < rounds; round++ {
-				for _, r := range ci.evalAll(g*13 + round) {
-					k := r[:strings.Index(r, ":")]
-					if want[k] != r {
-						mu.Lock()
-						if bad == "" {
-							bad = "mismatch:" + k
-						}
-						mu.Unlock()
+				held := []*concHeld{}
+				got := func(h *concHeld) {
+					if w, ok := wantOf(g, h.key); !ok || w != h.canon() {
+						fail("mismatch:" + h.key)
 					}
+					held = append(held, h)
+				}
+				// graphics transfers of all goroutines in different phases at the same moment
+				owns[g].gfxPhases(g, false, meet, got)
+				// own inputs (capability sets, texts, images that differ from goroutine to goroutine), in a burst right after
+				// everybody met, so that the calls overlap
+				for it := 0; it < 12; it++ {
+					if it < 11 {
+						owns[g].evalOwn(g, func(h *concHeld) {
+							if w, ok := wantOf(g, h.key); !ok || w != h.canon() {
+								fail("mismatch:" + h.key)
+							}
+						})
+					} else {
+						owns[g].evalOwn(g, got)
+					}
+				}
+				ci.evalAll(g*13+round, got)
+				owns[g].gfxPhases(g, true, meet, got)
+				// held across this goroutine's later calls, while the other goroutines still convert
+				for _, h := range held {
+					if w, _ := wantOf(g, h.key); w != h.canon() {
+						fail("mismatch:held-result-changed:" + h.key)
+					}
+				}
+				if round == rounds-1 {
+					lastHeld[g] = held
 				}
 			}
 		}(g)
 	}
 	wg.Wait()
+	// … and after every goroutine has finished
+	for g, hs := range lastHeld {
+		for _, h := range hs {
+			if w, _ := wantOf(g, h.key); w != h.canon() {
+				fail("mismatch:held-result-changed-after-all-finished:" + h.key)
+			}
+		}
+	}
 	if bad != "" {
 		return bad
 	}
@@ -205,22 +470,19 @@ func concDebugChild(seed uint64) {
 	// results with the dump off first …
 	ci := concBuild(seed)
 	want := map[string]string{}
-	for _, r := range ci.evalAll(0) {
-		want[r[:strings.Index(r, ":")]] = r
-	}
+	ci.evalAll(0, func(h *concHeld) { want[h.key] = h.canon() })
 	helpers.DebugRWPhelpersMU.Lock()
 	helpers.DebugRWPhelpers = true
 	helpers.DebugRWPhelpersMU.Unlock()
 	bad := "_model=SK\xffRCP"
 	for round := 0; round < 2; round++ {
 		// … must be the results with the dump on
-		for _, r := range ci.evalAll(round) {
-			k := r[:strings.Index(r, ":")]
-			if want[k] != r {
-				fmt.Fprintln(os.Stderr, "debug-differs:"+k)
+		ci.evalAll(round, func(h *concHeld) {
+			if want[h.key] != h.canon() {
+				fmt.Fprintln(os.Stderr, "debug-differs:"+h.key)
 				os.Exit(3)
 			}
-		}
+		})
 		helpers.RawPanelASCIIstringsToOutboundMessages([]string{bad, "_serial=\xfe", "Msg=\xc3"})
 		helpers.RawPanelASCIIstringsToInboundMessages([]string{"HWCt#1=|||\xff", "SetCalibrationProfile=\xff"})
 		helpers.InboundMessagesToRawPanelASCIIstrings([]*rwp.InboundMessage{{States: []*rwp.HWCState{{HWCIDs: []uint32{1}, HWCText: &rwp.HWCText{Title: "\xff\xfe"}}}}})
